@@ -29,7 +29,7 @@ ANCHOR_FILES = ["gpytorch/models/", "gpytorch/module.py", "gpytorch/utils/memoiz
 
 QUICK_FAMS = ["default", "default_iterative", "batch_nan", "mt_kronecker", "ski", "ski_dynamic_grid", "sgpr", "batch", "svgp_whitened", "svgp_unwhitened", "lmc_multitask"]
 ALL_FAMS = ["default", "default_iterative", "batch", "batch_nan", "mt_kronecker", "ski", "ski_dynamic_grid", "sgpr", "svgp_whitened", "svgp_unwhitened", "svgp_meanfield", "svgp_batch_decoupled", "lmc_multitask"]
-STATE_CHANGING = {"train_step", "train_step_frozen", "train_step_jitter", "set_data", "set_targets", "set_targets_strict", "load_sd"}
+STATE_CHANGING = {"train_step", "train_step_frozen", "train_step_jitter", "train_step_via_mll", "load_sd_partial", "set_data", "set_targets", "set_targets_strict", "load_sd"}
 EXACT_ALPHA = ["pred", "pred_fpv", "pred_nodetach", "pred_skipvar", "pred_eager", "pred_batch", "train_step", "set_data", "set_targets", "set_targets_strict", "load_sd", "load_sd_same", "fantasy", "prior", "backward", "train_eval"]
 VAR_ALPHA = ["pred", "pred_batch", "pred_skipvar", "pred_eager", "train_step", "load_sd", "load_sd_same", "prior", "backward", "train_eval"]
 VAR_FAMS = {"svgp_whitened", "svgp_unwhitened", "svgp_meanfield", "svgp_batch_decoupled", "lmc_multitask"}
@@ -71,7 +71,7 @@ def cases(tier, seed):
         for seq in pick:
             yield {"family": fam, "seq": list(seq), "mseed": rnd.randrange(1000)}
         # other numerical settings at one call / a training step with part of the model frozen or under other settings
-        for new in ("pred_jitter", "train_step_frozen", "train_step_jitter", "pred_loose"):
+        for new in ("pred_jitter", "train_step_frozen", "train_step_jitter", "pred_loose", "train_step_via_mll", "load_sd_partial"):
             if fam == "batch_nan" and new == "pred_jitter":
                 continue
             if new == "pred_loose" and fam in VAR_FAMS:
